@@ -2,7 +2,7 @@ import PhyModel.Proofs.StoreCache_addDp
 import PhyModel.Proofs.StoreCache_relabel
 /-! C06, `Tree.remove_subtree`: the subtree below (and including) one clone is cut out; only the
 equations on the path from its former parent to the top can break, and that path is recomputed. -/
-namespace PhyModel.Store
+namespace PhyModel.Store.C06
 open PhyModel
 
 /-! ### `removeSub` -/
@@ -191,4 +191,4 @@ theorem cacheOK_rmSub (dt : Data) (s sub s' : Store) (hw : WFc s) (hc : CacheOK 
         rw [this]
         exact hpx
 
-end PhyModel.Store
+end PhyModel.Store.C06
